@@ -22,7 +22,7 @@ def main():
     meta = {'property': prop, 'name': name, 'ran': []}
     try:
         # build flags: only from the command line(s) that compile demo.c
-        flags = ' '.join(sorted(set(f for l in readme.split('\n') if 'gcc' in l and 'demo' in l for f in re.findall(r'-D(?:USE|HAVE)_\w+=\d|-Wl,--wrap=\w+|-fsanitize=[\w,]+|-DDEMO_\w+', l))))
+        flags = ' '.join(sorted(set(f for l in readme.split('\n') if 'gcc' in l and 'demo' in l for f in re.findall(r'-std=\w+|-D(?:USE|HAVE)_\w+=\d|-Wl,--wrap=\w+|-fsanitize=[\w,]+|-DDEMO_\w+', l))))
         def build_demo(out):
             return sh('gcc -w -I %s/libscpi/inc %s %s %s/libscpi/src/*.c -lm -o %s' % (wt, flags, demo, wt, out))
         rc, o = build_demo('/tmp/demo_clean_%d' % os.getpid())
